@@ -186,7 +186,8 @@ pub fn graph_to_mods(g: &Graph, ptrw: usize) -> Mods {
                 Edge::Scalar => (Type::ident("u64"), 8, false),
                 Edge::Undef(0) => (Type::ident("Missing"), 8, false),
                 Edge::Undef(1) => (Type::ident("Missing").const_pointer(), ptrw, false),
-                Edge::Undef(_) => (Type::ident("Missing").array(2), 16, false),
+                Edge::Undef(2) => (Type::ident("Missing").array(2), 16, false),
+                Edge::Undef(_) => (Type::ident("Missing").array(0), 0, false),
             };
             let mut st = TypeStatement::field((Visibility::Public, format!("f{k}").as_str()), ty);
             let mut attrs = vec![Attribute::address(cur)];
@@ -256,7 +257,7 @@ pub fn random_graph(rng: &mut Rng, prefix: &str) -> Graph {
                     if k == 0 && rng.chance(1, 3) {
                         Edge::Base(x)
                     } else if rng.chance(1, 4) {
-                        Edge::Array(x, rng.range(1, 3))
+                        Edge::Array(x, rng.range(0, 3))
                     } else {
                         Edge::ByValue(x)
                     }
@@ -286,7 +287,7 @@ pub fn random_graph(rng: &mut Rng, prefix: &str) -> Graph {
             let from = nodes[i];
             let to = nodes[(i + 1) % len];
             let e = match rng.below(3) {
-                0 => Edge::Array(to, rng.range(1, 2)),
+                0 => Edge::Array(to, rng.range(0, 2)),
                 1 if edges[from].is_empty() => Edge::Base(to),
                 _ => Edge::ByValue(to),
             };
@@ -300,7 +301,7 @@ pub fn random_graph(rng: &mut Rng, prefix: &str) -> Graph {
     if flavour == 7 || flavour == 9 {
         for _ in 0..rng.range(1, 2) {
             let t = rng.below(ntypes);
-            edges[t].push(Edge::Undef(rng.below(3) as u8));
+            edges[t].push(Edge::Undef(rng.below(4) as u8));
         }
     }
     let mut fn_undef = vec![];
@@ -339,13 +340,19 @@ pub fn random_graph(rng: &mut Rng, prefix: &str) -> Graph {
     }
 }
 
-/// All digraphs on 3 types with labels {none, by-value, pointer} per ordered pair.
+/// All digraphs on 3 types with labels {none, by-value, pointer} per ordered pair;
+/// `zero_arrays`: by-value edges are spelt as arrays of length 0 instead.
 pub fn exhaustive_graph(code: usize) -> Graph {
+    exhaustive_graph_with(code, false)
+}
+
+pub fn exhaustive_graph_with(code: usize, zero_arrays: bool) -> Graph {
     let mut c = code;
     let mut edges: Vec<Vec<Edge>> = vec![vec![]; 3];
     for from in 0..3 {
         for to in 0..3 {
             match c % 3 {
+                1 if zero_arrays => edges[from].push(Edge::Array(to, 0)),
                 1 => edges[from].push(Edge::ByValue(to)),
                 2 => edges[from].push(Edge::Ptr(to, false)),
                 _ => {}
@@ -539,14 +546,19 @@ pub fn run_c10(ctx: &mut Ctx) {
     let ex: Vec<(usize, Vec<(String, String)>, bool)> = (0..total)
         .into_par_iter()
         .filter(|c| c % stride == off)
-        .map(|c| {
-            let g = exhaustive_graph(c);
-            let (bad, acc, _) = judge_graph(&g, if c % 2 == 0 { 8 } else { 4 }, false);
-            (c, bad, acc)
+        .flat_map(|c| {
+            [false, true]
+                .into_iter()
+                .map(|z| {
+                    let g = exhaustive_graph_with(c, z);
+                    let (bad, acc, _) = judge_graph(&g, if c % 2 == 0 { 8 } else { 4 }, false);
+                    (c + if z { 1_000_000 } else { 0 }, bad, acc)
+                })
+                .collect::<Vec<_>>()
         })
         .collect();
     ctx.exhaustive = Some(stride == 1);
-    ctx.extra.insert("exhaustive_digraphs".into(), json!({"types": 3, "labels": "none/by-value/pointer", "cases": total, "stride": stride, "complete": stride == 1}));
+    ctx.extra.insert("exhaustive_digraphs".into(), json!({"types": 3, "labels": "none/by-value/pointer, by-value also spelt as zero-length array", "cases": total * 2, "stride": stride, "complete": stride == 1}));
     for (c, bad, acc) in ex {
         ctx.eval();
         ctx.count(if acc { "exhaustive_accepted" } else { "exhaustive_rejected" }, 1);
@@ -556,7 +568,7 @@ pub fn run_c10(ctx: &mut Ctx) {
             eprintln!("empty graph rejected: {:?}", out.result.err().map(|e| e.msg));
         }
         for (sig, detail) in bad {
-            let g = exhaustive_graph(c);
+            let g = exhaustive_graph_with(c % 1_000_000, c >= 1_000_000);
             ctx.violation(&sig, &detail, case_json(&graph_to_mods(&g, 8), 8));
         }
     }
@@ -701,6 +713,20 @@ pub fn judge_bind(c: &BindCase) -> Vec<(String, String)> {
     let want = env.bind(cpath, name);
     let out = drive::build_modules(&mods, c.ptrw, Opts::default());
     let mut bad = vec![];
+    {
+        // consumer first, providers afterwards: the outcome must not depend on it
+        let mut rev = mods.clone();
+        rev.reverse();
+        let out2 = drive::build_modules(&rev, c.ptrw, Opts::default());
+        let same = match (&out.result, &out2.result) {
+            (Ok(a), Ok(b)) => a.files == b.files,
+            (Err(_), Err(_)) => true,
+            _ => false,
+        };
+        if !same {
+            bad.push(("C11/binding-depends-on-module-order".into(), format!("`{name}` in `{cpath}`: adding the consumer module before the providers gives a different result")));
+        }
+    }
     match (&out.result, &want) {
         (Err(e), _) if e.stage == Stage::Panic => bad.push(("C11/panic".into(), e.msg.clone())),
         (Ok(_), None) => bad.push(("C11/accepted-unbound-name".into(), format!("`{name}` has no candidate in scope of `{cpath}` but the build succeeded"))),
